@@ -57,6 +57,13 @@ const K_REAL: &[&str] = &[
 ];
 const K_STUB: &[&str] = &["wall clock (simulated)", "uuid (seeded)", "SIGVTALRM/SIGURG delivery (queued, delivered at scheduling points)"];
 
+const POOL_RULE: &str = "fresh process per run; one CoroutinePool (min 0-2, max 1-4, keep-alive 0/1ms/1s): an owner thread alternates scheduling passes and sleeps and finally calls stop(30 s); 1-3 user threads submit 1-8/12 generated tasks (return / panic / suspend / delay / cpu work, priorities incl. extremes), wait for results with timeouts 0/1/50/5000 ms/untimed, and cancel tasks before submission, while queued, running or suspended; stall, spurious-wake-up and late-signal faults; non-trivial = a task suspended, a cancel, a blocked wait or a panic happened and threads interleaved; distinct = distinct (workload, schedule) fingerprints";
+const POOL_REAL: &[&str] = &["core/src/co_pool/{mod,creator,state,task}.rs", "core/src/scheduler.rs", "coroutine kernel as C07", "ordered work-steal queue as C03", "CondvarBlocker (core/src/common/mod.rs)"];
+
+const RT_RULE: &str = "fresh process per run; EventLoops with 1-4 event-loop threads (pool min 0-2, max 1..65536, keep-alive 0/1ms/1s); 1-4 user threads submit 1-12/40 generated tasks (return / panic / suspend / delay / cpu work / hooked usleep, priorities incl. extremes), join them (timeouts 0/1/50/5000 ms/untimed), cancel them (before submission, queued, running, suspended) and drop handles; 2 s quiet period, then EventLoops::stop(30 s); stall, spurious-wake-up and late-signal faults; local capacity 1..256 and CPU count knobs force overflow and stealing; non-trivial = a task suspended / was cancelled / a join blocked / a panic / a task ran on another loop than it was submitted to; distinct = distinct (workload, schedule) fingerprints";
+const RT_REAL: &[&str] = &["core/src/net/{mod,event_loop,join}.rs", "core/src/net/selector (real epoll through mio's Registry)", "core/src/co_pool, core/src/scheduler.rs, coroutine kernel, queues", "core/src/syscall/unix/{usleep,...}.rs (hooked sleeps)"];
+const RT_STUB: &[&str] = &["the waiting part of epoll_wait (simulated)", "std Mutex/Condvar/atomics/thread::spawn/sleep, clocks", "dashmap (simulated shard locks)", "SIGVTALRM delivery (queued, delivered at scheduling points)", "core_affinity (no-op)"];
+
 pub static PROPS: &[Prop] = &[
     Prop {
         id: "C07",
@@ -114,6 +121,73 @@ pub static PROPS: &[Prop] = &[
         stub: K_STUB,
     },
     Prop {
+        id: "C11",
+        level: "exploration",
+        parts: &[
+            Part { scenario: "pool", quick_runs: 30_000, thorough_runs: 400_000, classes: &["pool-over-max", "workers-not-released", "stop-slow", "stop-failed", "owner-panic", "crash"] },
+            Part { scenario: "rt", quick_runs: 10_000, thorough_runs: 200_000, classes: &["stop-slow", "stop-failed"] },
+        ],
+        quick_wall_s: 50,
+        thorough_wall_s: 600,
+        rule: POOL_RULE,
+        assumptions: COMMON_ASSUME,
+        real: POOL_REAL,
+        stub: K_STUB,
+    },
+    Prop {
+        id: "C12",
+        level: "exploration",
+        parts: &[
+            Part { scenario: "pool", quick_runs: 30_000, thorough_runs: 400_000, classes: &["submit-after-stop", "submit-refused", "accepted-task-dropped", "waiter-stuck", "pool-state", "stop-failed", "deadlock", "call-stuck", "wait-timeout-untimed", "owner-panic", "user-panic"] },
+            Part { scenario: "rt", quick_runs: 10_000, thorough_runs: 200_000, classes: &["submit-after-stop", "submit-refused", "accepted-task-dropped", "deadlock"] },
+        ],
+        quick_wall_s: 50,
+        thorough_wall_s: 600,
+        rule: POOL_RULE,
+        assumptions: COMMON_ASSUME,
+        real: POOL_REAL,
+        stub: K_STUB,
+    },
+    Prop {
+        id: "C13",
+        level: "exploration",
+        parts: &[
+            Part { scenario: "pool", quick_runs: 30_000, thorough_runs: 400_000, classes: &["cancelled-task-ran", "task-ran-twice", "task-lost", "wrong-result", "waiter-stuck", "crash"] },
+            Part { scenario: "rt", quick_runs: 10_000, thorough_runs: 200_000, classes: &["cancelled-task-ran", "task-ran-twice", "task-stranded", "crash"] },
+        ],
+        quick_wall_s: 50,
+        thorough_wall_s: 600,
+        rule: POOL_RULE,
+        assumptions: COMMON_ASSUME,
+        real: POOL_REAL,
+        stub: K_STUB,
+    },
+    Prop {
+        id: "C01",
+        level: "exploration",
+        parts: &[Part { scenario: "rt", quick_runs: 30_000, thorough_runs: 400_000, classes: &["task-stranded", "task-ran-twice", "task-lost", "accepted-task-dropped", "submit-refused", "call-stuck", "crash", "deadlock", "user-panic"] }],
+        quick_wall_s: 55,
+        thorough_wall_s: 900,
+        rule: RT_RULE,
+        assumptions: COMMON_ASSUME,
+        real: RT_REAL,
+        stub: RT_STUB,
+    },
+    Prop {
+        id: "C02",
+        level: "exploration",
+        parts: &[
+            Part { scenario: "rt", quick_runs: 20_000, thorough_runs: 300_000, classes: &["wrong-result", "wait-late", "wait-timeout-spurious", "wait-timeout-untimed", "wait-error", "waiter-stuck"] },
+            Part { scenario: "pool", quick_runs: 15_000, thorough_runs: 200_000, classes: &["wrong-result", "wait-late", "wait-timeout-spurious", "wait-timeout-untimed", "wait-error", "waiter-stuck"] },
+        ],
+        quick_wall_s: 60,
+        thorough_wall_s: 900,
+        rule: RT_RULE,
+        assumptions: COMMON_ASSUME,
+        real: RT_REAL,
+        stub: RT_STUB,
+    },
+    Prop {
         id: "C09",
         level: "exploration",
         parts: &[Part { scenario: "co_life", quick_runs: 150_000, thorough_runs: 3_000_000, classes: &["request-leak"] }],
@@ -155,8 +229,11 @@ pub static PROPS: &[Prop] = &[
     Prop {
         id: "C05",
         level: "exploration",
-        parts: &[Part { scenario: "q_hist", quick_runs: 80_000, thorough_runs: 2_000_000, classes: &["priority-order", "pop-wrong-item", "mirror-mismatch"] }],
-        quick_wall_s: 45,
+        parts: &[
+            Part { scenario: "q_hist", quick_runs: 60_000, thorough_runs: 2_000_000, classes: &["priority-order", "pop-wrong-item", "mirror-mismatch"] },
+            Part { scenario: "pool_prio", quick_runs: 15_000, thorough_runs: 300_000, classes: &["priority-order", "task-lost", "accepted-task-dropped"] },
+        ],
+        quick_wall_s: 60,
         thorough_wall_s: 600,
         rule: "single-thread histories over one shared and 1-4 local queues; the shims log every container-level insert/remove, a FIFO mirror per container gives the resident set of the queue that supplied each popped item; non-trivial = steal/spill/shared pop happened; distinct = distinct workload fingerprints",
         assumptions: COMMON_ASSUME,
